@@ -12,6 +12,7 @@ import Tickit.Driver.Common
   through a scripted `Tokenizer` and runs the *model* `inputPushBytes` / `inputCheckTimeoutMsec` on it; the
   model observation repeats the K section verbatim and prints the model's events for W and for F (the
   model is fragmentation independent by theorem, so both are the same list) and the model's deadline.
+  `CRASH exit=77` (a fault inside libtermkey, recognised by the harness' fault handler) is echoed and not judged.
   SPEC (evaluated on the implementation's observation): F's events = W's events; both report the same
   deadline; W's events are what `Spec.run` (held buttons as a set, no loop) says for the logged keys; the
   logged keys satisfy what the property trusts of the tokenizer (`Key.WF`).
@@ -225,7 +226,12 @@ def specVerdict (st : St) (o : ImplObs) : List Nat × String :=
         | none => [s!"events differ from the specification: expected [{showEvents r.2}]"]
   (r.1, "; ".intercalate (lost ++ frag ++ tmo ++ wf ++ evs))
 
+/-- What the scaffolding prints for an operation when the harness left with its exit code for "fault inside
+    libtermkey": the stream is one the trusted tokenizer does not survive, so the property says nothing. -/
+def tkCrash : String := "CRASH exit=77"
+
 def step (st : St) (ts : List String) (impl : String) : St × String × String :=
+  if impl = tkCrash then (st, tkCrash, "") else
   match ts with
   | "new" :: _ :: rest | "reset" :: _ :: rest =>
     let wait : Int := match toks impl with
